@@ -8,7 +8,7 @@ import re
 import shutil
 import tempfile
 import time
-from concurrent.futures import ThreadPoolExecutor
+from concurrent.futures import ThreadPoolExecutor, ProcessPoolExecutor
 
 import engine
 import mir
@@ -77,7 +77,11 @@ def variant_facts(edits, overflow=True):
 def run_rules_on(mod, F, prop):
     X = mir.ExprBuilder(F)
     rep = engine.Report(prop, "control", "variant")
-    mod.run(F, X, rep)
+    try:
+        mod.run(F, X, rep)
+    except Exception as e:   # noqa - same fail-closed convention as ./check
+        rep.rule(prop + "-INTERNAL", "every rule of the property can be evaluated on this tree")
+        rep.ob(prop + "-INTERNAL", False, "-", "rules evaluated without internal error", detail="anchor-missing: a rule could not be evaluated (%s: %s)" % (type(e).__name__, str(e)[:120]))
     return rep
 
 
@@ -94,6 +98,28 @@ def run_mutant(mod, prop, mutant, known_keys=()):
     ok = bool(fired) if not exp else any(any(f.startswith(e) for e in exp) for f in fired)
     return {"name": mutant["name"], "status": "fired" if ok else "missed", "fired": fired,
             "first": (viol[0]["detail"] or viol[0]["what"])[:200] if viol else "", "wall": round(time.time() - t0, 2)}
+
+
+def _mutant_job(args):
+    """worker-process entry: (property id, mutant, known keys) -> result dict"""
+    prop, mutant, known = args
+    mod = importlib.import_module("p_" + prop.lower())
+    return run_mutant(mod, prop, mutant, known)
+
+
+def _map_mutants(prop, todo, known):
+    """replay variants in worker processes (loading and normalising the facts of a variant is CPU-bound Python)"""
+    if not todo:
+        return []
+    n = min(int(os.environ.get("VERIF_JOBS", "12")), len(todo))
+    jobs = [(prop, m, tuple(known)) for m in todo]
+    if n <= 1:
+        return [_mutant_job(j) for j in jobs]
+    try:
+        with ProcessPoolExecutor(max_workers=n) as ex:
+            return list(ex.map(_mutant_job, jobs))
+    except Exception:   # noqa - fall back to in-process replay
+        return [_mutant_job(j) for j in jobs]
 
 
 def load_catalogue(prop):
@@ -126,8 +152,7 @@ def run_controls(mod, prop, tier, seed):
         todo = ctl
     else:
         todo = cat
-    with ThreadPoolExecutor(max_workers=8) as ex:
-        results = list(ex.map(lambda m: run_mutant(mod, prop, m, known), todo))
+    results = _map_mutants(prop, todo, known)
     fired = [r for r in results if r["status"] == "fired"]
     skipped = [r for r in results if r["status"] in ("skipped", "compile-error")]
     missed = [r for r in results if r["status"] == "missed"]
@@ -143,8 +168,7 @@ def run_controls(mod, prop, tier, seed):
             eq = importlib.import_module("mutants_" + prop.lower()).EQUIV
         except (ImportError, AttributeError):
             eq = []
-        with ThreadPoolExecutor(max_workers=8) as ex:
-            eres = list(ex.map(lambda m: run_mutant(mod, prop, m, known), eq))
+        eres = _map_mutants(prop, eq, known)
         out["equivalence_edits"] = {"silent": len([r for r in eres if r["status"] == "missed"]),
                                     "false_alarms": [{"name": r["name"], "rules": r["fired"]} for r in eres if r["status"] == "fired"],
                                     "skipped": len([r for r in eres if r["status"] in ("skipped", "compile-error")])}
